@@ -117,6 +117,9 @@ fn check_lunar_year(ctx: &Ctx, civ: &Civil, t: &LunTable, y: isize, loc: &mut Lo
     }
     // the listed days really are the days the calendar assigns to this month: first, middle and last day convert back
     if !((7..=26).contains(&l.y) || (235..=241).contains(&l.y)) {
+      if l.days != 29 && l.days != 30 {
+        ctx.violation("lunar_month_days", l.key(), format!("the month lists {} days (a lunar month has 29 or 30)", l.days), vec!["lmonth".to_string(), l.y.to_string(), l.m.to_string()]);
+      }
       loc.transitions += 1;
       let r = guard(|| {
         let ds = LunarMonth::from_ym(l.y as isize, l.m as isize).get_days();
